@@ -266,12 +266,30 @@ structure BranchStep (tb : Option String) (g gb : G) : Prop where
   headCommit : gb.headCommit = g.headCommit
   head : gb.head = g.head ∨ ∃ b, tb = some b ∧ gb.head = .branch b
   refs : ∀ r, tb ≠ some r → lookupRef gb.refs r = lookupRef g.refs r
+  /-- `checkout -b` succeeded: no branch of that name existed -/
+  fresh : ∀ b, tb = some b → lookupRef g.refs b = none
 
-theorem BranchStep.rfl' (tb : Option String) (g : G) : BranchStep tb g g :=
-  ⟨rfl, rfl, rfl, rfl, rfl, Or.inl rfl, fun _ _ => rfl⟩
+theorem BranchStep.rfl' (g : G) : BranchStep none g g :=
+  ⟨rfl, rfl, rfl, rfl, rfl, Or.inl rfl, fun _ _ => rfl, fun _ h => by cases h⟩
+
+/-- `git checkout -b <b>` refuses when a branch `b` exists ("a branch named b already exists") -/
+theorem checkout_fail_of_exists (g : G) (b : String) (h : (lookupRef g.refs b).isSome) :
+    checkoutNewBranch g b = .fail := by
+  unfold checkoutNewBranch
+  simp [h]
 
 theorem BranchStep.headTree {tb g gb} (h : BranchStep tb g gb) : gb.headTree = g.headTree :=
   headTree_congr h.commits h.headCommit
+
+/-- a ref that existed before an (optional, successful) `checkout -b` has the same value after it -/
+theorem BranchStep.pre_refs {tb g gb} (h : BranchStep tb g gb) (r : String) (c : Nat)
+    (hr : lookupRef g.refs r = some c) : lookupRef gb.refs r = some c := by
+  rw [h.refs r (fun e => by have := h.fresh r e; rw [this] at hr; cases hr)]
+  exact hr
+
+theorem BranchStep.not_existing {tb g gb} (h : BranchStep tb g gb) (b : String) (hb : tb = some b) :
+    ¬ (lookupRef g.refs b).isSome = true := by
+  rw [h.fresh b hb]; simp
 
 theorem checkout_cases (g : G) (b : String) :
     checkoutNewBranch g b = .fail ∨ ∃ gb, checkoutNewBranch g b = .ok gb ∧ BranchStep (some b) g gb := by
@@ -284,14 +302,16 @@ theorem checkout_cases (g : G) (b : String) :
     simp only [hb]
     cases hc : g.headCommit with
     | some c =>
-      refine ⟨_, rfl, ⟨rfl, rfl, rfl, rfl, ?_, Or.inr ⟨b, rfl, rfl⟩, ?_⟩⟩
+      refine ⟨_, rfl, ⟨rfl, rfl, rfl, rfl, ?_, Or.inr ⟨b, rfl, rfl⟩, ?_, ?_⟩⟩
       · rw [hc]; simp [G.headCommit, lookupRef]
       · intro r hr
         have : b ≠ r := fun e => hr (by rw [e])
         simp [lookupRef, this]
+      · intro b' hb'; cases hb'; exact hnone
     | none =>
-      refine ⟨_, rfl, ⟨rfl, rfl, rfl, rfl, ?_, Or.inr ⟨b, rfl, rfl⟩, fun _ _ => rfl⟩⟩
-      rw [hc]; simp [G.headCommit, hnone]
+      refine ⟨_, rfl, ⟨rfl, rfl, rfl, rfl, ?_, Or.inr ⟨b, rfl, rfl⟩, fun _ _ => rfl, ?_⟩⟩
+      · rw [hc]; simp [G.headCommit, hnone]
+      · intro b' hb'; cases hb'; exact hnone
 
 /-- the state after `git add <pathspec>` -/
 def addState (spec : Path → Bool) (g : G) : G := { g with index := Tree.pick spec g.wt g.index }
@@ -405,6 +425,14 @@ namespace Git
 @[simp] theorem gitReset_index (g : G) : (gitReset g).index = g.headTree := rfl
 @[simp] theorem gitReset_headTree (g : G) : (gitReset g).headTree = g.headTree := rfl
 
+/-- The ref clause of the property for one ref `r` that pointed at commit `c`: it keeps its value,
+    or it was the current branch and now points at the ONE new commit, whose parent is `c` (xvc only
+    adds its commit on top of what the branch had). -/
+def RefKept (g g' : G) (r : String) (c : Nat) : Prop :=
+  lookupRef g'.refs r = some c ∨
+  (lookupRef g'.refs r = some g.commits.length ∧ g.head = .branch r ∧
+    ∃ o, g'.commits = g.commits ++ [o] ∧ o.parent = some c)
+
 /-- Everything the theorems need to know about the state `g2` and result `ok` that
     `git_commit_xvc_files` produces from a state `g` whose index is clean (equal to HEAD). -/
 structure HelperFacts (spec : Path → Bool) (tb : Option String) (g g2 : G) (ok : Bool) : Prop where
@@ -424,6 +452,10 @@ structure HelperFacts (spec : Path → Bool) (tb : Option String) (g g2 : G) (ok
   nothing : (∀ p, spec p = true → g.wt.find? p = g.index.find? p) →
     g2.commits = g.commits ∧ (∀ p, g2.index.find? p = g.index.find? p) ∧ g2.headTree = g.headTree ∧
     (tb = none → ok = true ∧ g2.head = g.head ∧ ∀ r, lookupRef g2.refs r = lookupRef g.refs r)
+  /-- every ref that existed is kept or extended by the one new commit -/
+  refs_ext : ∀ r c, lookupRef g.refs r = some c → RefKept g g2 r c
+  /-- `--to-branch` naming an existing branch: `checkout -b` refuses, nothing at all happens -/
+  existing : ∀ b, tb = some b → (lookupRef g.refs b).isSome → g2 = g ∧ ok = false
 
 /-- the four ways `git_commit_xvc_files` can end -/
 theorem helper_cases (spec : Path → Bool) (g : G) (msg : String) (tb : Option String) (hookOk : Bool) :
@@ -468,7 +500,7 @@ theorem helper_cases (spec : Path → Bool) (g : G) (msg : String) (tb : Option 
   cases tb with
   | none =>
     right
-    exact ⟨g, BranchStep.rfl' none g, key g (BranchStep.rfl' none g)⟩
+    exact ⟨g, BranchStep.rfl' g, key g (BranchStep.rfl' g)⟩
   | some b =>
     rcases checkout_cases g b with hf | ⟨gb, hok, hbs⟩
     · left; simp [hf]
@@ -491,9 +523,13 @@ theorem helper_spec (spec : Path → Bool) (g : G) (msg : String) (tb : Option S
       clean := fun p => (hclean p).symm,
       head_user := fun _ _ => rfl,
       commits := Or.inl rfl,
-      nothing := fun _ => ⟨rfl, fun _ => rfl, rfl, fun h => absurd h htb⟩ }
+      nothing := fun _ => ⟨rfl, fun _ => rfl, rfl, fun h => absurd h htb⟩,
+      refs_ext := fun _ _ h => Or.inl h,
+      existing := fun _ _ _ => ⟨rfl, rfl⟩ }
   · -- `git add` found nothing to add
     rw [hB]
+    have hpre := hbs.pre_refs
+    have hnex := hbs.not_existing
     have hH : gb.headTree = g.headTree := hbs.headTree
     have hI : ∀ p, (addState spec gb).index.find? p = g.index.find? p := by
       intro p
@@ -521,9 +557,13 @@ theorem helper_spec (spec : Path → Bool) (g : G) (msg : String) (tb : Option S
         · rcases hbs.head with h | ⟨b, h, _⟩
           · simpa using h
           · simp at h
-        · intro r; simpa using hbs.refs r (by simp) }
+        · intro r; simpa using hbs.refs r (by simp),
+      refs_ext := fun r c h => Or.inl (by simpa using hpre r c h),
+      existing := fun b hb hs => absurd hs (hnex b hb) }
   · -- `git commit` failed: the index is reset
     rw [hR]
+    have hpre := hbs.pre_refs
+    have hnex := hbs.not_existing
     have hH : gb.headTree = g.headTree := hbs.headTree
     exact {
       wt := by simp [hbs.wt], stash := by simp [hbs.stash],
@@ -537,9 +577,13 @@ theorem helper_spec (spec : Path → Bool) (g : G) (msg : String) (tb : Option S
       clean := fun p => by simp,
       head_user := fun p _ => by simp [hH],
       commits := Or.inl (by simp [hbs.commits]),
-      nothing := fun hn => absurd (by intro p hs; rw [hbs.wt, hbs.index]; exact hn p hs) hne }
+      nothing := fun hn => absurd (by intro p hs; rw [hbs.wt, hbs.index]; exact hn p hs) hne,
+      refs_ext := fun r c h => Or.inl (by simpa using hpre r c h),
+      existing := fun b hb hs => absurd hs (hnex b hb) }
   · -- `git add` and `git commit` succeeded
     rw [hC]
+    have hpre := hbs.pre_refs
+    have hnex := hbs.not_existing
     have hcs := commitState_step (addState spec gb) msg
     have hH : gb.headTree = g.headTree := hbs.headTree
     have hI : ∀ p, (commitState (addState spec gb) msg).index.find? p =
@@ -587,7 +631,33 @@ theorem helper_spec (spec : Path → Bool) (g : G) (msg : String) (tb : Option S
         fun p hp => by
           show (addState spec gb).index.find? p = _
           rw [addState_index, hbs.wt, hbs.index]; simp [hp, hclean p]⟩,
-      nothing := fun hn => absurd (by intro p hs; rw [hbs.wt, hbs.index]; exact hn p hs) hne }
+      nothing := fun hn => absurd (by intro p hs; rw [hbs.wt, hbs.index]; exact hn p hs) hne,
+      refs_ext := fun r c h => by
+        by_cases hh : gb.head = .branch r
+        · right
+          have hg : g.head = .branch r := by
+            rcases hbs.head with e | ⟨b, hb1, hb2⟩
+            · rw [← e]; exact hh
+            · rw [hb2] at hh
+              have hbr : b = r := by cases hh; rfl
+              have := hbs.fresh b hb1
+              rw [hbr, h] at this; cases this
+          have h3 : (commitState (addState spec gb) msg).head = .branch r := by
+            have := hcs.head
+            simp only [addState_head, hh] at this
+            cases hx : (commitState (addState spec gb) msg).head <;> simp_all [Head.same]
+          have hc3 := hcs.headCommit
+          simp only [G.headCommit, h3, addState_commits, hbs.commits] at hc3
+          refine ⟨hc3, hg, ⟨(addState spec gb).index, (addState spec gb).headCommit, msg⟩, ?_, ?_⟩
+          · rw [hcs.commits]; simp [hbs.commits]
+          · show (addState spec gb).headCommit = some c
+            rw [addState_headCommit]
+            simp only [G.headCommit, hh]
+            exact hpre r c h
+        · left
+          rw [hcs.refs r (by simpa using hh)]
+          simpa using hpre r c h,
+      existing := fun b hb hs => absurd hs (hnex b hb) }
 
 end Git
 
@@ -611,12 +681,18 @@ structure CallFacts (spec : Path → Bool) (tb : Option String) (g g' : G) (st :
   nothing : (∀ p, spec p = true → g.wt.find? p = g.index.find? p) →
     g'.commits = g.commits ∧ (∀ p, g'.index.find? p = g.index.find? p) ∧ g'.headTree = g.headTree ∧
     (tb = none → g'.head = g.head ∧ ∀ r, lookupRef g'.refs r = lookupRef g.refs r)
+  /-- every ref that existed is kept or extended by the one new commit (also the current branch) -/
+  refs_ext : ∀ r c, lookupRef g.refs r = some c → RefKept g g' r c
+  /-- `--to-branch` naming an existing branch: no ref, HEAD or commit changes -/
+  existing : ∀ b, tb = some b → (lookupRef g.refs b).isSome →
+    g'.refs = g.refs ∧ g'.head = g.head ∧ g'.commits = g.commits
 
 theorem CallFacts.refl' (spec : Path → Bool) (tb : Option String) (g : G) (st : Status)
     (h : st ≠ .outside) : CallFacts spec tb g g st :=
   { inside := h, wt := fun _ => rfl, index_user := fun _ _ => rfl, head_user := fun _ _ => rfl,
     stash := rfl, head := Or.inl (Head.same_refl _), refs := fun _ _ _ => rfl, commits := Or.inl rfl,
-    nothing := fun _ => ⟨rfl, fun _ => rfl, rfl, fun _ => ⟨rfl, fun _ => rfl⟩⟩ }
+    nothing := fun _ => ⟨rfl, fun _ => rfl, rfl, fun _ => ⟨rfl, fun _ => rfl⟩⟩,
+    refs_ext := fun _ _ h => Or.inl h, existing := fun _ _ _ => ⟨rfl, rfl, rfl⟩ }
 
 theorem status_ite_inside (ok : Bool) : (if ok = true then Status.ok else Status.gitError) ≠ .outside := by
   cases ok <;> simp
@@ -630,7 +706,9 @@ theorem autoCommit_facts (spec : Path → Bool) (g : G) (msg : String) (tb : Opt
     NoMixed (gitAutoCommit spec g msg tb hookOk).g ∧
     (∀ p, g.headTree.find? p = g.index.find? p →
         (gitAutoCommit spec g msg tb hookOk).g.headTree.find? p =
-        (gitAutoCommit spec g msg tb hookOk).g.index.find? p) := by
+        (gitAutoCommit spec g msg tb hookOk).g.index.find? p) ∧
+    (∀ b, tb = some b → (lookupRef g.refs b).isSome →
+        (gitAutoCommit spec g msg tb hookOk).status = .gitError) := by
   by_cases hst : diffCached g = []
   · -- nothing staged: no stash, no pop
     have hclean : ∀ p, g.index.find? p = g.headTree.find? p :=
@@ -642,9 +720,14 @@ theorem autoCommit_facts (spec : Path → Bool) (g : G) (msg : String) (tb : Opt
       unfold gitAutoCommit stashUserStagedFiles
       simp [hst]
     rw [hres]
-    refine ⟨?_, ?_, ?_⟩
+    refine ⟨?_, ?_, ?_, ?_⟩
     · exact {
         inside := status_ite_inside _
+        refs_ext := hf.refs_ext
+        existing := fun b hb hs => by
+          have := (hf.existing b hb hs).1
+          show (gitCommitXvcFiles spec g msg tb hookOk).1.refs = g.refs ∧ _
+          rw [this]; exact ⟨rfl, rfl, rfl⟩
         wt := fun p => by rw [hf.wt]
         index_user := hf.index_user
         head_user := hf.head_user
@@ -659,6 +742,9 @@ theorem autoCommit_facts (spec : Path → Bool) (g : G) (msg : String) (tb : Opt
       exact absurd (hf.clean p) hp
     · intro p _
       exact hf.clean p
+    · intro b hb hs
+      have := (hf.existing b hb hs).2
+      simp [this]
   · rcases push_cases g hm with hpush | hpush
     · -- staged changes stashed, commit attempted, stash popped
       have hclean : ∀ p, (pushState g).index.find? p = (pushState g).headTree.find? p := fun _ => rfl
@@ -698,9 +784,13 @@ theorem autoCommit_facts (spec : Path → Bool) (g : G) (msg : String) (tb : Opt
         · have : e.base.find? p ≠ e.idx.find? p := hp
           rw [if_pos this]
           exact (hm p hp).symm
-      refine ⟨?_, ?_, ?_⟩
+      refine ⟨?_, ?_, ?_, ?_⟩
       · exact {
           inside := status_ite_inside _
+          refs_ext := fun r c h => hf.refs_ext r c h
+          existing := fun b hb hs => by
+            have h1 := (hf.existing b hb hs).1
+            rw [h1]; exact ⟨rfl, rfl, rfl⟩
           wt := hW3
           index_user := fun p hp => by
             rw [hI3]
@@ -744,12 +834,15 @@ theorem autoCommit_facts (spec : Path → Bool) (g : G) (msg : String) (tb : Opt
         rw [popState_headTree, hI3]
         simp only [hc, ne_eq, not_true_eq_false, if_false]
         exact hf.clean p
+      · intro b hb hs
+        have := (hf.existing b hb hs).2
+        simp [this]
     · -- `git stash push` refused (no initial commit): `?` returns the error, nothing happened
       have hres : gitAutoCommit spec g msg tb hookOk = ⟨g, .gitError⟩ := by
         unfold gitAutoCommit stashUserStagedFiles
         simp [hst, hpush]
       rw [hres]
-      exact ⟨CallFacts.refl' spec tb g .gitError (by simp), hm, fun _ h => h⟩
+      exact ⟨CallFacts.refl' spec tb g .gitError (by simp), hm, fun _ h => h, fun _ _ _ => rfl⟩
 
 end Git
 
@@ -797,7 +890,9 @@ theorem handle_facts (spec : Path → Bool) (cfg : Cfg) (g : G) (msg : String) (
             rw [addState_index]
             by_cases h : spec p = true
             · simp [h, hn p h]
-            · simp [h], by rw [addState_headTree], fun _ => ⟨rfl, fun _ => rfl⟩⟩ }
+            · simp [h], by rw [addState_headTree], fun _ => ⟨rfl, fun _ => rfl⟩⟩
+          refs_ext := fun _ _ h => Or.inl h
+          existing := fun _ _ _ => ⟨rfl, rfl, rfl⟩ }
       · simp only [hu, hc, hs, if_true, if_false]
         exact CallFacts.refl' spec tb g .ok (by simp)
   · simp only [hu, if_false]
